@@ -244,9 +244,21 @@ func Run(prefix []int, bodies []func()) *Execution {
 	// goroutines the library started natively before (e.g. the lexer of a NewFrom in the
 	// scenario's setup) may still be executing their last statements: wait until every
 	// one of them has finished, they must not call into the hooks of this run
-	for i := 0; i < 2000000; i++ {
-		if st, fin := verifrt.GoCounts(); st == fin {
+	stable, last := 0, int64(-1)
+	for i := 0; i < 200000; i++ {
+		st, fin := verifrt.GoCounts()
+		if st == fin {
 			break
+		}
+		// goroutines leaked by an earlier execution never finish: accept a count that
+		// has not moved for a while
+		if st-fin == last {
+			stable++
+			if stable > 2000 {
+				break
+			}
+		} else {
+			stable, last = 0, st-fin
 		}
 		if i < 1000 {
 			runtime.Gosched()
